@@ -293,7 +293,11 @@ def run_case(c, case):
                 finally:
                     _REG[id(m._invariant)]["busy"] = False
             with rt.quiet(), np.errstate(all="ignore"):
-                m.kalman_filter(data, span, return_info=True, **case["opts"])
+                res0 = m.kalman_filter(data, span, return_info=True, **case["opts"])
+            if case.get("mv"):
+                # two parameter variants filtered in one call: each variant equals the single-variant model with its values
+                _REG.pop(id(m._invariant), None)
+                c03.variant_law(c, case, m, data, span, res0)
         except Exception as exc:
             c.inconc(f"kalman_filter:raised:{type(exc).__name__}")
         finally:
